@@ -103,6 +103,12 @@ def dict_from_pairs(eng, st, pairs, kkind=None, vkind=None):
         dom = z3.Store(dom, unwrap(k, kkind), z3.BoolVal(True))
         val = z3.Store(val, unwrap(k, kkind), unwrap(v, vkind))
     st, d = alloc_dict(st, kkind, vkind, dom=dom, val=val)
+    if all(isinstance(k, VConc) for k, _ in pairs):
+        # a display with literal keys is also tracked as a record (see dict_setitem): opaque operations can then see its content
+        items = ()
+        for k, v in pairs:
+            items = _py_store(items, k.py, v)
+        st = st.updobj(d.oid, pyitems=items, pysig=(dom, val))
     return ("ok", st, d)
 
 
@@ -1187,6 +1193,12 @@ def bi_type(eng, st, pos, kw):
 
 def bi_super(eng, st, pos, kw):
     # super(Cls, self) -> proxy resolved on the first base that defines the method
+    if not pos:
+        # zero-argument form inside the method under verification: its class and its `self`
+        con = getattr(eng, "cur_contract", None)
+        if con is None or "." not in con.qual or "self" not in (eng.entry_args or {}):
+            raise Unsupported("super() outside a method under verification")
+        pos = [VClass(con.qual.split(".")[0].split("@")[0]), eng.entry_args["self"]]
     cls, obj = pos
     bases = eng.mro(cls.name)[1:] or ["object"]
     ci = eng.class_info(cls.name)
